@@ -86,7 +86,7 @@ class Rec:
         self.obs = absn.Observer(expect_preface=(self.role == 'c'))
         from hpack import Decoder
         self.indec = Decoder()
-        self.indec.max_header_list_size = 2 ** 26
+        self.indec.max_header_list_size = 2 ** 18
         self.indec.max_allowed_table_size = 2 ** 32
         self.inbuf = b''
         self.preface_seen = self.role == 'c'
@@ -214,8 +214,12 @@ class Rec:
                 block = pf['block'] + b''.join(fr[3] for fr in frags[1:])
                 g = {'t': 'HEADERS' if typ == 1 else 'PP', 'sid': sid, 'blk': 'ok', 'h': 'x', 'tsu': table_size_updates(block)}
                 try:
-                    from hpack import NeverIndexedHeaderTuple
-                    hs = self.indec.decode(block, raw=True)
+                    from hpack import NeverIndexedHeaderTuple, OversizedHeaderListError
+                    try:
+                        hs = self.indec.decode(block, raw=True)
+                    except OversizedHeaderListError:
+                        return None, 'header block that inflates beyond what is worth logging'
+
                     g['hx'] = [absn.tok(h[0], h[1], 'N' if isinstance(h, NeverIndexedHeaderTuple) else 't') for h in hs]
                 except Exception:
                     g['blk'] = 'bad'
